@@ -82,6 +82,9 @@ def tie_with(ctx, jobs, nontrivial, sigfn=None, driver='Sim.lean', script='run_s
     viol = [dict(replay=dict(spec=v['spec']), reason=v['reason'], signature=(sigfn(v) if sigfn else v['oracle'])) for v in viol]
     if errs:
         return dict(ok=False, stats=stats, violations=viol, fail=dict(what=f"harness could not drive the real code ({errs[0]['name']})", detail=errs[0]['detail']))
+    unknown = sorted({h for r in good for e in r['idx'] for h in e.get('unknown', [])})
+    if unknown:
+        return dict(ok=False, stats=stats, violations=viol, fail=dict(what=f"handlers of the real code that the model's handler table does not contain: {unknown}"))
     diffs = [r['diff'] for r in good if r['diff']]
     if diffs:
         return dict(ok=False, stats=stats, violations=viol, fail=min(diffs, key=lambda d: len(json.dumps(d.get('spec')))))
